@@ -4,12 +4,13 @@
 //   c04_harness menu <script>             menu level: script-defined translations, real rime::Menu + filters
 //   c04_harness api <workspace> <script>  API level: sessions on a deployed workspace (stock + synthetic schemas)
 //
-// menu-level lines:  reset | tr [cache] [distinct] <cand>* | menu <uniq|scf>* | prepare n | page ps p | at i |
-//                    empty | count | dump          cand = text:comment:start:end:quality:<t|s> (hex) or null
+// menu-level lines:  reset | tr [cache] [distinct] [prefetch<k>] [union] [unique] <cand>* (`/` between the pieces of a union) |
+//                    menu <uniq|scf>* | prepare n | page ps p | at i | empty | count | dump | tprobe n | probe n
+//                    cand = text:comment:start:end:quality:<t|s> (hex) or null
 // api-level lines:   row <ns> <key> <text> <comment> <quality> <t|s>      (table of c04_translator@<ns>)
 //                    state <schema> <opt=0|1,...|-> <input> <keys|set>    (new session; prints `state <hasmenu> <ps>`)
 //                    restate                                              (clear + same input again in the same session)
-//                    ctx | hl i | hlp i | chpage +|- | key next|prior|up|down | list from n
+//                    ctx | hl i | hlp i | chpage +|- | key next|prior|up|down | keyc <keycode> | list from n
 #include "hcommon.h"
 #include <map>
 #include <sstream>
@@ -85,6 +86,19 @@ static std::string bracket(const std::vector<std::string>& v) {
   return o + "]";
 }
 
+// a PrefetchTranslation the way the simplifier and the single-char filter use it: Replenish() pulls candidates of the wrapped
+// translation into the queue (here up to k at a time, unchanged), so what it yields is what the wrapped translation yields
+class HPrefetch : public rime::PrefetchTranslation {
+ public:
+  HPrefetch(an<rime::Translation> t, size_t k) : rime::PrefetchTranslation(t), k_(k) {}
+ protected:
+  bool Replenish() override {
+    for (size_t i = 0; i < k_ && !translation_->exhausted(); ++i) { cache_.push_back(translation_->Peek()); translation_->Next(); }
+    return !cache_.empty();
+  }
+  size_t k_;
+};
+
 static int run_menu(const char* script_path) {
   std::ifstream script(script_path);
   std::vector<an<rime::Translation>> trs;
@@ -99,22 +113,72 @@ static int run_menu(const char* script_path) {
     if (w.empty() || w[0][0] == '#') continue;
     if (w[0] == "reset") { trs.clear(); menu.reset(); puts("reset"); continue; }
     if (w[0] == "tr") {
-      bool use_cache = false, use_distinct = false, ok = true;
-      auto fifo = New<rime::FifoTranslation>();
+      // wrappers: cache | distinct | prefetch<k> (a PrefetchTranslation whose Replenish() moves up to k candidates into the
+      // queue) | union (pieces separated by `/`, joined by UnionTranslation) | unique (a UniqueTranslation of the one candidate)
+      bool use_cache = false, use_distinct = false, use_union = false, use_unique = false, ok = true;
+      size_t prefetch = 0;
+      std::vector<an<rime::FifoTranslation>> pieces{New<rime::FifoTranslation>()};
+      size_t ncand = 0; an<rime::Candidate> first;
       for (size_t i = 1; i < w.size(); ++i) {
         if (w[i] == "cache") { use_cache = true; continue; }
         if (w[i] == "distinct") { use_distinct = true; continue; }
+        if (w[i] == "union") { use_union = true; continue; }
+        if (w[i] == "unique") { use_unique = true; continue; }
+        if (w[i].rfind("prefetch", 0) == 0 && w[i].size() == 9 && w[i][8] >= '1' && w[i][8] <= '9') { prefetch = w[i][8] - '0'; continue; }
+        if (w[i] == "/") { if (!use_union) { ok = false; break; } pieces.push_back(New<rime::FifoTranslation>()); continue; }
         an<rime::Candidate> c;
         if (!parse_cand(w[i], &c)) { ok = false; break; }
-        if (!c && use_distinct) { ok = false; break; }
-        fifo->Append(c);
+        if (!c && (use_distinct || use_unique)) { ok = false; break; }
+        if (!ncand++) first = c;
+        pieces.back()->Append(c);
       }
+      if (use_unique && (ncand != 1 || use_union)) ok = false;
       if (!ok) { puts("bad-op"); continue; }
-      an<rime::Translation> t = fifo;
+      an<rime::Translation> t = pieces[0];
+      if (use_unique) t = New<rime::UniqueTranslation>(first);
+      if (use_union) {
+        if (pieces.size() == 2) {
+          t = pieces[0] + pieces[1];                      // operator+ (null when both are exhausted)
+          if (!t) t = New<rime::UnionTranslation>();
+        } else {
+          auto u = New<rime::UnionTranslation>();
+          for (auto& p : pieces) *u += p;
+          t = u;
+        }
+      }
       if (use_distinct) t = New<rime::DistinctTranslation>(t);
+      if (prefetch) t = New<HPrefetch>(t, prefetch);
       if (use_cache) t = New<rime::CacheTranslation>(t);
       trs.push_back(t);
       puts("tr ok");
+      continue;
+    }
+    if (w[0] == "tprobe" && w.size() == 2) {
+      // Peek / Next on the last translation alone, n times (past its exhaustion)
+      if (trs.empty()) { puts("bad-op"); continue; }
+      auto t = trs.back(); trs.pop_back();
+      std::string o = "tprobe";
+      for (size_t k = 0, n = std::stoul(w[1]); k < n; ++k) {
+        auto c = t->Peek();
+        bool r = t->Next();
+        o += std::string(k ? "|" : " ") + (c ? show_cand(c) : std::string("null")) + "," + (r ? "1" : "0") + "," + (t->exhausted() ? "1" : "0");
+      }
+      puts(o.c_str());
+      continue;
+    }
+    if (w[0] == "probe" && w.size() == 2) {
+      // the translations so far merged by a MergedTranslation of their own, Peek / Next n times (past its exhaustion)
+      rime::CandidateList none;
+      rime::MergedTranslation m(none);
+      for (auto& t : trs) m += t;
+      trs.clear();
+      std::string o = std::string("probe ") + (m.exhausted() ? "1" : "0");
+      for (size_t k = 0, n = std::stoul(w[1]); k < n; ++k) {
+        auto c = m.Peek();
+        bool r = m.Next();
+        o += std::string(k ? "|" : " ") + (c ? show_cand(c) : std::string("null")) + "," + (r ? "1" : "0") + "," + (m.exhausted() ? "1" : "0");
+      }
+      puts(o.c_str());
       continue;
     }
     if (w[0] == "menu") {
@@ -256,10 +320,15 @@ static int run_api(const char* ws_path, const char* script_path) {
       int code = w[1] == "next" ? 0xff56 : w[1] == "prior" ? 0xff55 : w[1] == "up" ? 0xff52 : w[1] == "down" ? 0xff54 : 0;
       if (!code) { puts("bad-op"); continue; }
       printf("ret %d\n", api->process_key(s, code, 0) ? 1 : 0);
+    } else if (w[0] == "keyc" && w.size() == 2) {
+      // any key by its code (arrow keys, Home / End and their keypad twins: what they do depends on the layout options)
+      printf("ret %d\n", api->process_key(s, (int)std::stol(w[1]), 0) ? 1 : 0);
     } else if (w[0] == "list" && w.size() == 3) {
       RimeCandidateListIterator it = {0};
       size_t n = std::stoul(w[2]);
-      if (!api->candidate_list_from_index(s, &it, (int)std::stoul(w[1]))) { puts("ret 0"); continue; }
+      int from = (int)std::stoul(w[1]);
+      // index 0 through candidate_list_begin (the entry point clients use for "from the start"), the rest through _from_index
+      if (!(from == 0 ? api->candidate_list_begin(s, &it) : api->candidate_list_from_index(s, &it, from))) { puts("ret 0"); continue; }
       std::vector<std::string> v;
       int ended = 0;
       for (size_t k = 0; k < n; ++k) {
